@@ -94,6 +94,11 @@ def make_cases(seed, tier):
     for f in (b"-18446744073709551615", b"-18446744073709551516", b"-0", b"-00"):
         for e in ("crypt_rn", "crypt_r", "crypt_ra", "crypt"):
             cases.append(("sha1-cost/sha1crypt", b"pw", b"$sha1$" + f + b"$saltsalt", e, "="))
+    # sha-crypt round counts beyond the documented 999,999,999, in particular 2^32 + small and 2^64 + small
+    for t in (b"$5$", b"$6$"):
+        for n in (2 ** 32 + 1000, 2 ** 32 + 5000, 2 ** 32 + 99999, 2 ** 33 + 1000, 2 ** 64 + 1000, 10 ** 9, 10 ** 10 + 1000):
+            cases.append(("rounds-above-max/" + ("sha256crypt" if t == b"$5$" else "sha512crypt"), b"pw",
+                          t + b"rounds=%d$saltsalt" % n, rng.choice(entries), "="))
     # random mutations (may succeed or fail: shape only)
     nm = 4000 if quick else 60000
     for i in range(nm):
